@@ -21,13 +21,15 @@ ok = ("244 passed" in t and "failed" not in t and d1 != 0 and d0 == 0)
 print("tests:", t, "| demo with change:", d1, "| without:", d0, "| confirmed:", ok)
 if not ok:
     sys.exit(1)
-# run our check against /repo with the patch
-assert run("git -C /repo status --short").stdout.strip() == ""
-r = run(f"git -C /repo apply {cdir}/patch.diff"); assert r.returncode == 0, r.stderr
+# run our check against a tree with the patch (SEED_CHECK_REPO: a scratch worktree; default /repo itself)
+import os
+R = os.environ.get("SEED_CHECK_REPO", "/repo")
+assert run(f"git -C {R} status --short").stdout.strip() == ""
+r = run(f"git -C {R} apply {cdir.resolve()}/patch.diff"); assert r.returncode == 0, r.stderr
 try:
-    c = run(f"cd /verif && ./check {prop} quick")
+    c = run(f"cd /verif && PYOAK_REPO={R} ./check {prop} quick")
 finally:
-    run("git -C /repo checkout -- .")
+    run(f"git -C {R} checkout -- .")
 viol = [l for l in c.stdout.splitlines() if l.startswith("VIOLATION")]
 print("check exit", c.returncode, "violations", len(viol))
 out = Path("/verif/seeded") / sid
@@ -39,6 +41,6 @@ notes = (cdir / "notes.txt").read_text() if (cdir / "notes.txt").exists() else "
     "id": sid, "breaks_property": prop, "needs_to_manifest": needs, "author_notes": notes,
     "confirmed": {"test_suite_with_change": t, "demo_exit_with_change": d1, "demo_exit_without_change": d0,
                   "how": "scratch worktree of /repo outside /repo and /verif; PYTHONPATH=<worktree>/src"},
-    "our_check": {"command": f"./check {prop} quick (patch applied to /repo, then git checkout -- .)",
+    "our_check": {"command": f"./check {prop} quick (patch applied to a checkout of /repo HEAD, then git checkout -- .)",
                   "exit": c.returncode, "violation_lines": viol[:3], "caught": c.returncode == 1 and bool(viol)},
 }, indent=1))
